@@ -663,7 +663,7 @@ class Reader:
             self.fields.append((cat * SECTOR + off + 6, 2, 'eltorito-sector-count'))
             self.fields.append((cat * SECTOR + off + 1, 1, 'eltorito-media'))
             rba = u32le(b, 8)
-            if 0 < rba < self.img.nsectors:
+            if 0 < rba < self.img.nsectors and u32le(self.img.sector(rba), 12) == rba:
                 # a boot info table, if any, sits at bytes 8..23 of the boot file (parsers look at it)
                 for k, name in ((8, 'bit-pvd-extent'), (12, 'bit-file-extent'), (16, 'bit-length'), (20, 'bit-checksum')):
                     self.fields.append((rba * SECTOR + k, 4, name))
